@@ -1,2 +1,16 @@
 """Matchers for known_findings.json: each recognises one specific failing case
-(exception kind + call site + the distinguishing feature of the input)."""
+(call site + the distinguishing feature of the input).  Any other failure of the
+same property is a VIOLATION."""
+
+
+def c04_single_null_element(failure, finding):
+    """A sequence-of-nullable-yes/no field whose text is exactly one spelling of the
+    null member ('Null' in any case): value [Null] renders as '' which denotes []."""
+    if failure.get("kind") != "value-changed":
+        return False
+    text = failure.get("text")
+    if not isinstance(text, str) or text.capitalize() != "Null":
+        return False
+    v, r = failure.get("value"), failure.get("reparsed")
+    return (v == {"t": "list", "v": [{"t": "enum", "c": "NullableYesOrNoEnum", "m": "Null"}]}
+            and r == {"t": "list", "v": []})
